@@ -9,9 +9,17 @@ CLAIMED = {
     text="Deterministic simulation of one updater against an in-memory repository (real urllib, sim: transport) and a fault-injecting filesystem layer: for every sampled world (file history, index shape, local state) the fault-free execution plus EVERY applicable single fault (transport, payload, index, open/write/close/rename) is executed and judged against an outcome table (converge / raise-and-leave-intact / either); pairs of faults are sampled in the thorough tier. Exhaustive over single faults per sampled world, sampling over worlds.",
     ref="5.C19", note="Trusted: the in-memory transport and the operation-level fault injector represent urllib/OS failures faithfully (checked by selftest fidelity against file:// and a real directory); tmpfs directory; unlink never fails; content is UTF-8 text without CR or a lone '.' line.",
     technique="deterministic simulation, exhaustive single-fault enumeration per seeded world + sampled fault pairs"),
+ "C06": dict(level="exploration",
+    text="Deterministic simulation of several clients (one per ArMember handle, from 1..3 ArFile instances sharing ONE file object or re-opening by file name) issuing seeded interleavings of read/readline/readlines/seek/tell; after every call the result and the position are compared with a BytesIO holding that member's bytes, and the listing (names, order, size, owner, group, mtime, last-of-name lookup) with the generated archive. Seeded sampling of archives and histories; no proof.",
+    ref="5.C06", note="Trusted: the independent 15-line ar writer (cross-checked against /usr/bin/ar in the fidelity self-test), io.BytesIO as the reference file; domain restricted to well-formed short-name archives and non-negative seek targets as the property states.",
+    technique="deterministic simulation: seeded interleaving of member clients over a shared file object vs. in-memory reference files"),
+ "C14": dict(level="exploration",
+    text="Deterministic simulation of assignment histories on 1..3 live Version handles in which any operation may be refused (the injected fault is the rejected operation): construction and component assignment with valid, invalid, empty and None values are judged step by step against a hand-written validator/decomposer (no regex), and after a refusal every observable of every handle must be unchanged. Seeded sampling of histories.",
+    ref="5.C14", note="Trusted: the hand-written Policy 5.6.12 validator (about 25 lines) as reference; empty-string assignment to an optional part may be rejected or treated as absent.",
+    technique="deterministic simulation: seeded operation histories with rejected-operation rollback checks vs. reference decomposer"),
 }
 PENDING = {k: "Claimed in DESIGN.md section 5 (simulation target); its check is not built yet in this revision - listed here only until it is." for k in
-           "C05 C06 C07 C09 C10 C11 C14 C15 C20".split()}
+           "C05 C07 C09 C10 C11 C15 C20".split()}
 NA = {
  "C01": "Pure function of the line list (quantifier: inputs only): no state, seam, fault or order of operations for a simulator to own; it is an enumeration / property-based-testing target (DESIGN.md section 2).",
  "C02": "Pure function of (text, input form, armor flag); the 'configurations' are argument shapes, not schedules or faults; input objects are iterated once, sequentially (DESIGN.md section 2).",
